@@ -191,7 +191,7 @@ def observe(p: Probe, base, mut, keyb):
 
 
 def _short(v) -> str:
-    s = repr(v)
+    s = " ".join(repr(v).split())
     return s if len(s) <= 160 else s[:157] + "..."
 
 
